@@ -90,6 +90,10 @@ def fn1 (id : String) : Option (CType × CType × (Cell → Cell)) :=
   | "s.flen" => some (.string, .float, fun c => match c with
       | .str (some s) => .float (fDiv (fOfInt s.length) (fOfInt 2)) | _ => .float (fDiv (fOfInt (-1)) (fOfInt 2)))
   | "s.nvl" => some (.string, .string, fun c => match c with | .str none => .str (some [78, 47, 65]) | y => y)
+  | "f.str" => some (.float, .string, fun c => match c with
+      | .float b => .str (some (strBytes (if F64.isNaN b then "nan" else if F64.sign b then "neg" else "pos"))) | y => y)
+  | "b.half" => some (.bool, .float, fun c => match c with | .bool b => .float (fDiv (fOfInt (if b then 3 else 1)) (fOfInt 2)) | y => y)
+  | "b.str" => some (.bool, .string, fun c => match c with | .bool b => .str (some (strBytes (if b then "T" else "F"))) | y => y)
   | _ => none
 
 def fn2 (id : String) : Option (CType × (Cell → Cell → Cell)) :=
@@ -250,7 +254,7 @@ structure Val where
 myinc/mysub/myneg/myaddx, "o" = "m" with int "+" replaced by x + y + 1000. -/
 def ctxHasUser (ctx : String) : Bool := ctx == "m" || ctx == "o"
 
-def evalUnary (ctx : String) (op : String) (t : CType) : Option (CType × (Cell → Cell)) :=
+def evalUnaryBase (ctx : String) (op : String) (t : CType) : Option (CType × (Cell → Cell)) :=
   if op.startsWith "my" && !ctxHasUser ctx then none else
   match fkind t, op with
   | .int, "abs" => some (.int, fun c => match c with | .int x => .int (wrap64 (if x < 0 then -x else x)) | y => y)
@@ -268,7 +272,7 @@ def evalUnary (ctx : String) (op : String) (t : CType) : Option (CType × (Cell 
   | .string, "mynvl" => some (.string, fun c => match c with | .str none => .str (some [78, 47, 65]) | y => y)   -- "N/A" for null
   | _, _ => none
 
-def evalBinary (ctx : String) (op : String) (t : CType) : Option (Cell → Cell → Cell) :=
+def evalBinaryBase (ctx : String) (op : String) (t : CType) : Option (Cell → Cell → Cell) :=
   if op.startsWith "my" && !ctxHasUser ctx then none else
   if ctx == "o" && op == "+" && fkind t == .int then
     some (fun a b => match a, b with | .int x, .int y => .int (wrap64 (wrap64 (x + y) + 1000)) | x, _ => x) else
@@ -288,6 +292,22 @@ def evalBinary (ctx : String) (op : String) (t : CType) : Option (Cell → Cell 
       | .str none, y => y | x, .str none => x
       | .str (some x), .str (some y) => .str (some (x ++ y)) | x, _ => x)
   | _, _ => none
+
+/-- Every function of the Apply catalogue is also registered in the user contexts as "my.<id>" (one per signature that
+SetFunc accepts): it is found for columns of its operand type, whatever its result type. -/
+def evalUnary (ctx : String) (op : String) (t : CType) : Option (CType × (Cell → Cell)) :=
+  if ctxHasUser ctx && op.startsWith "my." then
+    match fn1 (op.drop 3).toString with
+    | some (src, dst, g) => if fkind t == src then some (dst, g) else none
+    | none => none
+  else evalUnaryBase ctx op t
+
+def evalBinary (ctx : String) (op : String) (t : CType) : Option (Cell → Cell → Cell) :=
+  if ctxHasUser ctx && op.startsWith "my." then
+    match fn2 (op.drop 3).toString with
+    | some (src, g) => if fkind t == src then some g else none
+    | none => none
+  else evalBinaryBase ctx op t
 
 mutual
 /-- Denotation of an expression argument over a frame; `none` = error. -/
